@@ -13,6 +13,7 @@ RULE = ('cases = (i) cutoff+dr: every decimal step with <= 3 decimals in [0.001,
         '(iv) rejection: all three, step alone, zero / negative / non-numeric values of all six keys; (v) defaults for every subset of omitted keys; '
         '(vi) end-to-end: every tabulation target x (step, count, cutoff) triples incl. float-awkward ones, rows counted and spacing measured with the '
         'independent readers; all through the public ConfigParser / Configuration route; every lattice point evaluated; non-trivial = every pair')
+RULE += "; steps with 7 decimals; documented target synonyms; the same triples through the potable command line into a pre-filled OUTPUT_FILE; zero / nan / inf / 1e-320 grid values and all-three-with-a-zero rejected; the tabulation object's nr / cutoff / dr (nrho / cutoff_rho / drho) properties describe the written grid; (cutoff, nr) row-count sweep over every target"
 ASSUMPTIONS = [
     'decimal text is rendered as the shortest decimal literal (what a user types); k*step is computed exactly with decimal arithmetic',
     'cutoff=(nr-1)*dr is compared as a float product within 2 ulp; dr=cutoff/(nr-1) is observed through the written table',
